@@ -233,6 +233,10 @@ class _StubMd:
             deg = np.array(ang, dtype=np.float64)
             rad = np.deg2rad(np.where(deg > 180, deg - 360, deg)).astype(np.float32)
             rad[deg == 359.5] = np.float32(-1e-7)
+            if kind == "psi":
+                # psi is shifted by 100 degrees inside psi_rotamers: 99.5 (the grid angle below that seam) is given
+                # as 99.999985 -- same side of the boundary, no gate in between
+                rad[deg == 99.5] = np.float32(np.deg2rad(99.999985))
             inds = np.zeros((len(ids), 4), dtype=int)
             inds[:, 0] = ids
             inds[:, 2] = ids
@@ -313,7 +317,7 @@ def replay_group(g):
         rotamer.dihedral_angles, rotamer.md = saved, saved_md
     if g.get("real_conversion"):
         bad = [(k.replace("rotamer/", "rotamer/real-angle-conversion/", 1), dict(dd, angles="float32 radians from a "
-                "stand-in for mdtraj.compute_<type>; 359.5 degrees given as -1e-7 rad")) for k, dd in bad]
+                "stand-in for mdtraj.compute_<type>; 359.5 degrees given as -1e-7 rad, psi = 99.5 as 99.999985")) for k, dd in bad]
     return bad
 
 
